@@ -100,6 +100,13 @@ fn wlog(b: u8) -> io::Result<()> {
 		Ok(())
 	}
 }
+
+// Executable statement of core::fmt::write's contract for literal-only arguments (the only kind the framing code
+// uses): the text is written to the sink.  Keeps the harnesses decidable when a writer does NOT override write_fmt
+// (std's default goes through the formatting machinery, which CBMC cannot afford).
+fn fmt_write_literal(output: &mut dyn std::fmt::Write, args: std::fmt::Arguments<'_>) -> std::fmt::Result {
+	match args.as_str() { Some(s) => output.write_str(s), None => { assert!(false, "framing text is not a literal"); Ok(()) } }
+}
 struct LogW;
 impl Write for LogW {
 	fn write(&mut self, buf: &[u8]) -> io::Result<usize> { let mut i = 0; while i < buf.len() { wlog(buf[i])?; i += 1; } Ok(buf.len()) }
@@ -121,6 +128,7 @@ fn framing_value(body_fails: bool, fail_at: usize) {
 	let r = crate::Output::transcode_value(&mut out, 7u8);
 	let ok = r.is_ok();
 	std::mem::forget(r);
+	std::mem::forget(out); // no destructor work under CBMC (a buffering wrapper inside Output would flush here)
 	unsafe {
 		if body_fails { assert!(!ok && WPOS == 0, "a failed document must not be framed"); }
 		else if fail_at >= 2 { assert!(ok); assert!(WPOS == 2 && WLOG[0] == b'D' && WLOG[1] == b'\n', "JSON output is the document followed by exactly one newline"); }
@@ -130,14 +138,17 @@ fn framing_value(body_fails: bool, fail_at: usize) {
 #[kani::proof]
 #[kani::unwind(4)]
 #[kani::stub(serde_json::to_writer, to_writer_stub)]
+#[kani::stub(core::fmt::write, fmt_write_literal)]
 fn json_output_value_framing_ok() { framing_value(false, 99); }
 #[kani::proof]
 #[kani::unwind(4)]
 #[kani::stub(serde_json::to_writer, to_writer_stub)]
+#[kani::stub(core::fmt::write, fmt_write_literal)]
 fn json_output_value_framing_body_fails() { framing_value(true, 99); }
 #[kani::proof]
 #[kani::unwind(4)]
 #[kani::stub(serde_json::to_writer, to_writer_stub)]
+#[kani::stub(core::fmt::write, fmt_write_literal)]
 fn json_output_value_framing_newline_write_fails() { framing_value(false, 1); }
 
 
@@ -161,6 +172,7 @@ fn from_document(kind: u8, fail_at: usize, expect: &[u8]) {
 	let r = crate::Output::transcode_from(&mut out, OneEventDe { kind });
 	let ok = r.is_ok();
 	std::mem::forget(r);
+	std::mem::forget(out);
 	unsafe {
 		if kind == 0 { assert!(!ok && WPOS == 0, "a failed document must not be framed"); return; }
 		if fail_at >= expect.len() {
@@ -171,13 +183,17 @@ fn from_document(kind: u8, fail_at: usize, expect: &[u8]) {
 }
 #[kani::proof]
 #[kani::unwind(8)]
+#[kani::stub(core::fmt::write, fmt_write_literal)]
 fn json_output_from_null_document_is_one_line() { from_document(1, 99, b"null\n"); }
 #[kani::proof]
 #[kani::unwind(8)]
+#[kani::stub(core::fmt::write, fmt_write_literal)]
 fn json_output_from_true_document_is_one_line() { from_document(2, 99, b"true\n"); }
 #[kani::proof]
 #[kani::unwind(8)]
+#[kani::stub(core::fmt::write, fmt_write_literal)]
 fn json_output_from_failed_document_not_framed() { from_document(0, 99, b""); }
 #[kani::proof]
 #[kani::unwind(8)]
+#[kani::stub(core::fmt::write, fmt_write_literal)]
 fn json_output_from_writer_fault_at_newline() { from_document(1, 4, b"null\n"); }
